@@ -246,6 +246,7 @@ func main() {
 			for _, p := range props {
 				sweepVariants(root, *repo, p)
 				sweepPinned(root, *repo, p, known)
+				sweepSeeded(root, *repo, p)
 			}
 		}
 	}()
